@@ -909,7 +909,7 @@ Section RunnerProofs.
   Lemma Inv_rstep s (a : ev) : Inv s -> Inv (rstep lrn c s a).
   Proof.
     intros HI. unfold rstep.
-    destruct (ph s) as [| |w|w cl]; destruct a as [[|]|done| |j|got]; try exact HI.
+    destruct (ph s) as [| |w|w cl]; destruct a as [[|]|done| |j|got|done]; try exact HI.
     - apply Inv_stop; exact HI.
     - apply Inv_set_ph. apply get_futures_spec. exact HI.
     - apply Inv_stop. apply get_futures_upto_spec. exact HI.
@@ -917,6 +917,7 @@ Section RunnerProofs.
       + apply Inv_stop. eapply Inv_process; eauto.
       + apply Inv_set_ph. eapply Inv_process; eauto.
     - apply Inv_stop; exact HI.
+    - destruct (process lrn c s done) as [s' [pid|]] eqn:Ep; apply Inv_stop; eapply Inv_process; eauto.
     - destruct (c_kind c).
       + destruct (process lrn c s got) as [s' [pid|]] eqn:Ep; apply Inv_set_ph; eapply Inv_process; eauto.
       + apply Inv_set_ph; exact HI.
@@ -1082,7 +1083,7 @@ Section RunnerProofs.
   Lemma PhInv_rstep s (a : ev) : Inv s -> PhInv s -> PhInv (rstep lrn c s a).
   Proof.
     intros HI HP. unfold rstep. unfold PhInv in HP.
-    destruct (ph s) as [| |w|w cl] eqn:Eph; destruct a as [[|]|done| |j|got];
+    destruct (ph s) as [| |w|w cl] eqn:Eph; destruct a as [[|]|done| |j|got|done];
       try (unfold PhInv; rewrite Eph; exact HP).
     - apply PhInv_stop; [discriminate|exact HP].
     - unfold PhInv. sp. apply (gfk_not_stop None s HI HP).
@@ -1091,6 +1092,8 @@ Section RunnerProofs.
       + apply PhInv_stop; [discriminate|]. eapply not_stop_Pr; [eapply process_Pr; eauto|exact HP].
       + unfold PhInv. sp. eapply not_stop_Pr; [eapply process_Pr; eauto|exact HP].
     - apply PhInv_stop; [discriminate|exact HP].
+    - destruct (process lrn c s done) as [s' [pid|]] eqn:Ep;
+        (apply PhInv_stop; [discriminate|]; eapply not_stop_Pr; [eapply process_Pr; eauto|exact HP]).
     - destruct HP as (Hw & (t1 & t2 & Ht & H1 & H2 & H3 & H4) & Hne).
       destruct (c_kind c) eqn:Ek.
       + assert (Hsh : forall s' res, process lrn c s got = (s', res) -> stop_shape s').
@@ -1198,7 +1201,7 @@ Section RunnerProofs.
   Lemma RaiseInv_rstep s (a : ev) : Inv s -> RaiseInv s -> RaiseInv (rstep lrn c s a).
   Proof.
     intros HI HR. unfold rstep. unfold RaiseInv in HR.
-    destruct (ph s) as [| |w|w cl] eqn:Eph; destruct a as [[|]|done| |j|got];
+    destruct (ph s) as [| |w|w cl] eqn:Eph; destruct a as [[|]|done| |j|got|done];
       try (unfold RaiseInv; rewrite Eph; exact HR).
     - apply RaiseInv_stop_ok; [discriminate|exact HR].
     - unfold RaiseInv. sp. unfold get_futures. intros Hr p. rewrite (gfk_nerr None s p HI). apply HR. exact Hr.
@@ -1208,6 +1211,10 @@ Section RunnerProofs.
       + destruct Hpr. apply RaiseInv_stop_failed; assumption.
       + unfold RaiseInv. sp. exact Hpr.
     - apply RaiseInv_stop_ok; [discriminate|exact HR].
+    - pose proof (process_raise done s) as Hpr.
+      destruct (process lrn c s done) as [s' [pid|]] eqn:Ep; specialize (Hpr _ _ HI HR eq_refl).
+      + destruct Hpr. apply RaiseInv_stop_failed; assumption.
+      + apply RaiseInv_stop_ok; [discriminate|exact Hpr].
     - destruct (c_kind c).
       + pose proof (process_raise got s) as Hpr. pose proof (process_Pr got s) as HPr.
         destruct w as [| |p0|].
@@ -1377,7 +1384,7 @@ Section RunnerProofs.
   Lemma LogInv_rstep l0 s (a : ev) : Inv s -> LogInv l0 s -> LogInv l0 (rstep lrn c s a).
   Proof.
     intros HI HL. unfold rstep.
-    destruct (ph s) as [| |w|w cl] eqn:Eph; destruct a as [[|]|done| |j|got]; try exact HL.
+    destruct (ph s) as [| |w|w cl] eqn:Eph; destruct a as [[|]|done| |j|got|done]; try exact HL.
     - apply LogInv_stop; exact HL.
     - apply LogInv_set_ph, (LogInv_get_futures l0 None); assumption.
     - apply LogInv_stop, LogInv_get_futures; assumption.
@@ -1385,6 +1392,7 @@ Section RunnerProofs.
       + apply LogInv_stop. eapply LogInv_process; eauto.
       + apply LogInv_set_ph. eapply LogInv_process; eauto.
     - apply LogInv_stop; exact HL.
+    - destruct (process lrn c s done) as [s' [pid|]] eqn:Ep; apply LogInv_stop; eapply LogInv_process; eauto.
     - destruct (c_kind c).
       + destruct (process lrn c s got) as [s' [pid|]] eqn:Ep; apply LogInv_set_ph; eapply LogInv_process; eauto.
       + apply LogInv_set_ph; exact HL.
@@ -1468,12 +1476,13 @@ Section RunnerProofs.
       unfold gf_asks. destruct (Nat.ltb_spec (length (gf_R s)) (gf_n s)).
       + specialize (Hask (lst s) (gf_m s)). unfold gf_m in *. unfold gf_n in *. lia.
       + cbn [length]. unfold gf_n in *. lia. }
-    unfold rstep. destruct (ph s) as [| |w|w cl]; destruct a as [[|]|done| |j|got]; try exact HL.
+    unfold rstep. destruct (ph s) as [| |w|w cl]; destruct a as [[|]|done| |j|got|done]; try exact HL.
     - rewrite Hstop. exact HL.
     - sp. apply (Hgf None).
     - rewrite Hstop. apply (Hgf (Some j)).
     - destruct (process lrn c s done) as [s' [pid|]] eqn:Ep; [rewrite Hstop|sp]; specialize (Hproc _ _ _ Ep); lia.
     - rewrite Hstop. exact HL.
+    - destruct (process lrn c s done) as [s' [pid|]] eqn:Ep; rewrite Hstop; specialize (Hproc _ _ _ Ep); lia.
     - destruct (c_kind c); [|exact HL].
       destruct (process lrn c s got) as [s' [pid|]] eqn:Ep; sp; specialize (Hproc _ _ _ Ep); lia.
   Qed.
@@ -1520,18 +1529,20 @@ Section RunnerProofs.
   Definition phw s : option why := match ph s with Stopping w | Stopped w _ => Some w | _ => None end.
 
   Lemma phw_rstep s (a : ev) w : phw (rstep lrn c s a) = Some w ->
-    phw s = Some w \/ (w = GoalMet /\ a = Goal true) \/ (w = Cancelled /\ (a = Cancel \/ exists j, a = SubmitCancel j)) \/
+    phw s = Some w \/ (w = GoalMet /\ a = Goal true) \/ (w = Cancelled /\ (a = Cancel \/ (exists j, a = SubmitCancel j) \/ exists d, a = WaitCancel d)) \/
     exists p, w = Failed p.
   Proof.
     assert (Hstop : forall s0 w0, phw (stop lrn s0 w0) = Some w0).
     { intros s0 w0. unfold phw. destruct (stop_fields s0 w0) as (_ & _ & _ & _ & _ & _ & _ & _ & _ & Fph).
       rewrite Fph. destruct (pend s0); reflexivity. }
-    unfold rstep. destruct (ph s) as [| |w0|w0 cl] eqn:Eph; destruct a as [[|]|done| |j|got];
+    unfold rstep. destruct (ph s) as [| |w0|w0 cl] eqn:Eph; destruct a as [[|]|done| |j|got|done];
       try (unfold phw; rewrite Eph; intros H; left; exact H).
     - rewrite Hstop. intros [= <-]. auto.
-    - rewrite Hstop. intros [= <-]. right. right. left. split; [reflexivity|right; eexists; reflexivity].
+    - rewrite Hstop. intros [= <-]. right. right. left. split; [reflexivity|right; left; eexists; reflexivity].
     - destruct (process lrn c s done) as [s' [pid|]]; [rewrite Hstop; intros [= <-]; eauto 6|unfold phw; sp; discriminate].
     - rewrite Hstop. intros [= <-]. auto 8.
+    - destruct (process lrn c s done) as [s' [pid|]]; rewrite Hstop; intros [= <-]; [eauto 6|].
+      right. right. left. split; [reflexivity|right; right; eexists; reflexivity].
     - unfold phw at 2. rewrite Eph. destruct (c_kind c).
       + destruct (process lrn c s got) as [s' [pid|]]; unfold phw; sp; intros [= <-]; eauto 6.
       + unfold phw; sp. intros [= <-]. auto.
@@ -1539,18 +1550,21 @@ Section RunnerProofs.
 
   Lemma phw_run evs : forall s w, phw (run lrn c s evs) = Some w ->
     phw s = Some w \/ (w = GoalMet /\ In (Goal true) evs) \/
-    (w = Cancelled /\ (In Cancel evs \/ exists j, In (SubmitCancel j) evs)) \/ exists p, w = Failed p.
+    (w = Cancelled /\ (In Cancel evs \/ (exists j, In (SubmitCancel j) evs) \/ exists d, In (WaitCancel d) evs)) \/
+    exists p, w = Failed p.
   Proof.
     induction evs as [|a evs IH]; intros s w H; [left; exact H|]. rewrite run_cons in H.
     destruct (IH _ _ H) as [H1|[[-> H1]|[[-> H1]|H1]]].
-    - destruct (phw_rstep _ _ _ H1) as [H2|[[-> ->]|[[-> [->|[j ->]]]|H2]]]; cbn [In].
+    - destruct (phw_rstep _ _ _ H1) as [H2|[[-> ->]|[[-> [->|[[j ->]|[d ->]]]]|H2]]]; cbn [In].
       + auto.
       + auto 6.
       + right. right. left. split; [reflexivity|left; left; reflexivity].
-      + right. right. left. split; [reflexivity|right; exists j; left; reflexivity].
+      + right. right. left. split; [reflexivity|right; left; exists j; left; reflexivity].
+      + right. right. left. split; [reflexivity|right; right; exists d; left; reflexivity].
       + auto 6.
     - right. left. split; [reflexivity|right; exact H1].
-    - right. right. left. split; [reflexivity|]. destruct H1 as [H1|[j H1]]; [left; right; exact H1|right; exists j; right; exact H1].
+    - right. right. left. split; [reflexivity|]. destruct H1 as [H1|[[j H1]|[d H1]]];
+        [left; right; exact H1|right; left; exists j; right; exact H1|right; right; exists d; right; exact H1].
     - auto.
   Qed.
 
@@ -1558,7 +1572,7 @@ Section RunnerProofs.
     let s := reach l0 evs in
     ph s = Stopped w cl -> w <> NoWorkers ->
     (w = GoalMet -> In (Goal true) evs) /\
-    (w = Cancelled -> In Cancel evs \/ exists j, In (SubmitCancel j) evs) /\
+    (w = Cancelled -> In Cancel evs \/ (exists j, In (SubmitCancel j) evs) \/ exists d, In (WaitCancel d) evs) /\
     (forall p, w = Failed p -> c_raise c = true /\ r < nerr p (tr s)) /\
     (exists t1 t2, tr s = t1 ++ TRemove :: t2 /\ (forall e, In e t1 -> is_cdt e) /\ (forall e, In e t2 -> not_stop e)) /\
     (forall fid pid x, In (TSubmit fid pid x) (tr s) ->
@@ -1667,7 +1681,7 @@ Section RunnerProofs.
       exists (rev (cancels s0) ++ [TRemove]). rewrite Ft, <- app_assoc. reflexivity. }
     assert (Hproc : forall done s' res, process lrn c s done = (s', res) -> exists tn, tr s' = tn ++ tr s).
     { intros done s' res Ep. destruct (process_Pr _ _ _ _ HI Ep) as (tn & Ht & _). exists tn. exact Ht. }
-    destruct (ph s) as [| |w|w cl]; destruct a as [[|]|done| |j|got]; try (exists []; reflexivity); try apply Hstop.
+    destruct (ph s) as [| |w|w cl]; destruct a as [[|]|done| |j|got|done]; try (exists []; reflexivity); try apply Hstop.
     - sp. destruct (get_futures_spec s HI) as (_ & _ & Ft & _). rewrite Ft, app_assoc. eexists. reflexivity.
     - destruct (Hstop (get_futures_upto lrn c (Some j) s) Cancelled) as (tn' & Ht').
       destruct (get_futures_upto_spec (Some j) s HI) as (_ & _ & Ft & _).
@@ -1675,6 +1689,9 @@ Section RunnerProofs.
     - destruct (process lrn c s done) as [s' [pid|]] eqn:Ep; destruct (Hproc _ _ _ Ep) as (tn & Ht).
       + destruct (Hstop s' (Failed pid)) as (tn' & Ht'). rewrite Ht', Ht, app_assoc. eexists. reflexivity.
       + sp. exists tn. exact Ht.
+    - destruct (process lrn c s done) as [s' [pid|]] eqn:Ep; destruct (Hproc _ _ _ Ep) as (tn & Ht).
+      + destruct (Hstop s' (Failed pid)) as (tn' & Ht'). rewrite Ht', Ht, app_assoc. eexists. reflexivity.
+      + destruct (Hstop s' Cancelled) as (tn' & Ht'). rewrite Ht', Ht, app_assoc. eexists. reflexivity.
     - destruct (c_kind c); [|exists []; reflexivity].
       destruct (process lrn c s got) as [s' [pid|]] eqn:Ep; destruct (Hproc _ _ _ Ep) as (tn & Ht); sp; exists tn; exact Ht.
   Qed.
